@@ -47,6 +47,12 @@ Definition match_deferred (m : matcher) (d : deferred) (lg : log) : bool * defer
    Deferred (or a test) may just as well carry them *)
 Definition notfired_tok := 90.      (* testtools.twistedsupport._deferred.DeferredNotFired *)
 Definition impossible_tok := 91.    (* testtools.twistedsupport._deferred.ImpossibleDeferredError *)
+(* classes that are BaseExceptions but not Exceptions: Deferred.errback, a raising callback and maybeDeferred
+   wrap them into a Failure like any other class, and nothing in the code modelled here looks at the class *)
+Definition kbint_tok := 6.          (* KeyboardInterrupt *)
+Definition sysexit_tok := 7.        (* SystemExit *)
+Definition genexit_tok := 8.        (* GeneratorExit *)
+Definition dbase_tok := 9.          (* a user-defined direct subclass of BaseException *)
 Inductive xexc := XUser (e : nat) | XOther.          (* an exception of class e; a class outside the pools *)
 Definition XNotFired := XUser notfired_tok.
 Definition extract_result (d : deferred) (lg : log) : res nat xexc * deferred * log :=
